@@ -9,5 +9,7 @@ CONSTANTS
   IdleLimit = 0
   MaxFaults = 0
   AcceptSurvives = TRUE
+  PipelinedChild = FALSE
+  AsyncDrain = FALSE
 INVARIANTS TypeOK StepOncePerRequestInOrder AckMatches UnknownGetsUnknown AckAfterStep StateIsEffect NoStuckChild
 CHECK_DEADLOCK FALSE
